@@ -133,6 +133,10 @@ def h_router(ctx, ops):
     ref = RefRouter()
     receivers = [Obj("R0"), Obj("R1"), Obj("R2")]
     senders = [Obj("S0"), Obj("S1")]
+    # a sender owns one SSRC for its whole life (RTCRtpSender._ssrc) and is registered under it;
+    # whether two senders collide on it is solver-decided
+    for k, s in enumerate(senders):
+        s._ssrc = ctx.int("sender%d_ssrc" % k, 0, U32)
     reg_r, reg_s = [], []  # ghost: currently registered objects
     log = []
     for i, op in enumerate(ops):
@@ -152,7 +156,7 @@ def h_router(ctx, ops):
                 reg_r.remove(r)
         elif op == "s":
             s = ctx.choice("op%d_send" % i, senders)
-            ssrc = ctx.int("op%d_ssrc" % i, 0, U32)
+            ssrc = s._ssrc
             real.register_sender(s, ssrc)
             ref.register_sender(s, ssrc)
             if s not in reg_s:
